@@ -41,3 +41,10 @@ Lemma split_unfixed_drops_vtimezones :
   map (fun g => List.length (g_tzs g)) (split_unfixed up) = [0; 0]%nat /\
   map (fun g => List.length (g_tzs g)) (split up) = [1; 0]%nat.
 Proof. split; reflexivity. Qed.
+
+(* non-vacuity of the hypotheses of the regroup theorem: a well-formed upload with a referenced, folded-TZID zone *)
+Definition up_ok : upload :=
+  mkUpload [mkTz (tz_key (tzb "/One")) (tzb "/One")]
+           [mkComp KEvent (str "u1") [str "/example.org/Long/One"] (evb "1"); mkComp KTodo (str "u2") [] (evb "2")].
+Lemma tzb_key : tz_key (tzb "/One") = Some (str "/example.org/Long/One").
+Proof. vm_compute. reflexivity. Qed.
